@@ -1056,6 +1056,15 @@ Theorem C16_zsh_conflicts_local : forall m g,
 Proof. exact conflicts_local_resolve. Qed.
 Print Assumptions C16_zsh_conflicts_local.
 
+(** ... the local class spelled out = clap's configuration check ([id_exists]: argument or group, for every entry) AND every
+    entry of a GLOBAL option / flag names an ARGUMENT: the second conjunct is the class that excludes the [expect] ... *)
+Theorem C16_zsh_conflicts_local_meaning : forall m,
+  conflicts_local m = true <->
+  forall a, In a (c_args m) -> a_is_positional a = false -> forall id, In id (a_blacklist a) ->
+    (is_some (find_arg m id) || find_group m id)%bool = true /\ (a_global a = true -> is_some (find_arg m id) = true).
+Proof. exact conflicts_local_meaning. Qed.
+Print Assumptions C16_zsh_conflicts_local_meaning.
+
 (** ... so a tree in the exact-lookup class with the local class at every node is in [zsh_ok] and the generator writes a
     script: TOTAL for that class ... *)
 Theorem C16_zsh_total_local : forall c d b,
